@@ -165,6 +165,12 @@ def check(prop, tier='quick', repo=None, only=None, quiet=False, write=True):
     repo.touched = own_touched
     if not only or (prop + '.X') in only:
         results.append(run_obligation(exits_obligation(prop, sorted(call_closure(repo, own_touched, depth=1), key=str)), repo, tier, known))
+    if os.environ.get('VERIF_HELPERS') == '1' and (not only or (prop + '.H') in only):      # tried: +1 of 30 unseen changes, +14 of 240 false alarms - not adopted
+        from sa.rules import exits as _ex
+        cl = sorted(call_closure(repo, own_touched, depth=1), key=str)
+        results.append(run_obligation(Ob(prop + '.H', 'HELPERS (uncovered callees unchanged modulo normalisation)', 'functions one call away from the anchored code of %s that no obligation covers' % prop,
+                                         'the property is only as right as the helpers its functions call; a helper no rule looks at must still be its confirmed version up to behaviour-preserving rewrites',
+                                         lambda ctx: _ex.check_helpers(ctx, prop, cl)), repo, tier, known))
     if not only or (prop + '.U') in only:
         results.append(run_obligation(defuse_obligation(prop, list(repo.touched)), repo, tier, known))
     st = repo.stats()
